@@ -122,7 +122,8 @@ Section MMD.
       | None => Ok tt
       end.
 
-    (** [_check_fit_dimensions] with MultivariateData (operator.ge) *)
+    (** [_check_fit_dimensions] with MultivariateData (operator.ge); arrays with more than two
+        axes (DimensionError) are outside the array language of this model *)
     Definition check_fit_dims (X : arr) : res unit :=
       match X with
       | Arr1 _ => Ok tt
@@ -143,7 +144,7 @@ Section MMD.
         end
       end.
 
-    (** [_check_compare_dimensions] *)
+    (** [_check_compare_dimensions]: ndim and every axis after the first must agree *)
     Definition check_compare_dims (R X : arr) : res unit :=
       match R, X with
       | Arr1 _, Arr1 _ => Ok tt
@@ -190,9 +191,11 @@ Section MMD.
         end
       end.
 
-    (** [reset]: X_ref := None; num_instances := 0; self.mmd.reset().  The window is NOT cleared. *)
+    (** [reset]: X_ref := None; num_instances := 0; self.mmd.reset(); self.X_queue.clear()
+        (repaired code: the window is cleared, so a reset detector reads its ring in the same
+        storage order as a new one) *)
     Definition ms_reset (s : ms_st) : ms_st :=
-      {| ms_n := 0; ms_q := ms_q s; ms_ref := None; ms_mmd := mb_reset (ms_mmd s); ms_w := ms_w s |}.
+      {| ms_n := 0; ms_q := cq_clear (ms_q s); ms_ref := None; ms_mmd := mb_reset (ms_mmd s); ms_w := ms_w s |}.
 
     (** [np.array(self.X_queue)]: NumPy iterates a sequence object with __getitem__ from 0
         until IndexError, i.e. over ALL slots of the ring in STORAGE order (not FIFO order,
